@@ -439,3 +439,30 @@ Section Shared.
         end
     end.
 End Shared.
+
+(* ---------------------------------------------------------------------------------- *)
+(* Language.filter_id(instance, id_type) -- the property's observable                  *)
+(* ---------------------------------------------------------------------------------- *)
+(* what `instance` can be, as far as default_filter_id_for_target distinguishes: an object with a `name` attribute
+   (carrying str(instance.name)), or anything else (carrying str(instance); a str is its own str()) *)
+Inductive inst := INamed (name_str : str) | IPlain (str_of : str).
+
+(* default_filter_id_for_target as translated by T1 (Gen_Strop.default_id_rule): an ordered list of cases *)
+Inductive drule := DNameAttr      (* if hasattr(instance, "name"): return str(instance.name) *)
+                 | DStr.          (* return str(instance) *)
+Definition model_default_rule : list drule := [DNameAttr; DStr].
+
+Fixpoint run_default (rules : list drule) (i : inst) : option str :=
+  match rules with
+  | [] => None                                   (* falls off the end: returns None, not a str *)
+  | DNameAttr :: rest => match i with INamed n => Some n | IPlain _ => run_default rest i end
+  | DStr :: _ => Some (match i with INamed n => n (* unreachable after DNameAttr *) | IPlain s => s end)
+  end.
+
+Definition default_filter_id (i : inst) : str := match i with INamed n => n | IPlain s => s end.
+
+(* the body of Language.filter_id of c / cpp / py as translated (Gen_Strop.filter_id_steps_<lang>):
+     raw = self.default_filter_id_for_target(instance)      FDefaultId
+     return self._token_encoder.strop(raw, id_type)          FStrop      (the encoder may be bound to a local first) *)
+Inductive fstep := FDefaultId | FStrop.
+Definition model_filter_id_steps : list fstep := [FDefaultId; FStrop].
